@@ -651,6 +651,7 @@ def r2(ctx: Ctx) -> None:
                     continue
                 exx = handler_exits(ctx, nf, hn)
                 brs = [b for b in g.nodes if b.kind == "branch" and in_handler(b, hn.ast) and "404" in str_consts(ctx, nf, b.ast, b.id)]  # type: ignore[arg-type]
+                brs += [b_ for b_, cs_, _mr, _or, _mo, _oo in code_branches(ctx, nf, hn) if "404" in cs_ and b_ not in brs]  # table-driven dispatch
                 rer = any(r.raised == "reraise" for r in exx["raise"])
                 absent = sorted({c for _b, cs, _mr, _or, _mo, _oo in code_branches(ctx, nf, hn) for c in cs} - RESPONSE_KEYS)
                 if not brs:
